@@ -226,21 +226,29 @@ def radixFuel : Nat := 4000
 
 def predToRadix (c base : JV) : Pred :=
   if !isNumber c then exactCls "err"
-  else if isZeroNumber c then { classes := ["ok"], value := some "s:30" }
-  else match asInteger c, asInteger base with
-    | some n, some b =>
-      match toRadix radixFuel n b with
-      | .ok (some s) => { classes := ["ok"], value := some s!"s:{hexOfBytes (s.toUTF8.toList.map (·.toNat))}" }
-      | .ok none => exactCls "resource"
-      | .err _ => exactCls "err"
-      | .panic _ => exactCls "panic"
-      | .resource _ => exactCls "resource"
-    | _, _ => noPanic
+  else match asInteger base with
+    | some b =>
+      if b < 2 then exactCls "err"            -- "base too small", before the zero shortcut
+      else if isZeroNumber c then { classes := ["ok"], value := some "s:30" }
+      else match asInteger c with
+        | some n =>
+          match toRadix radixFuel n b with
+          | .ok (some s) => { classes := ["ok"], value := some s!"s:{hexOfBytes (s.toUTF8.toList.map (·.toNat))}" }
+          | .ok none => exactCls "resource"
+          | .err _ => exactCls "err"
+          | .panic _ => exactCls "panic"
+          | .resource _ => exactCls "resource"
+        | none => noPanic
+    | none =>
+      -- `$base < 2` in jq's order of types: null and booleans sort below numbers
+      match toGoJQ base with
+      | .null | .bool _ => exactCls "err"
+      | _ => noPanic
 
 def predFromRadix (c base : JV) : Pred :=
   match c with          -- binaries and decode values take fq's binary-aware split: not modelled
   | .str bs =>
-    if bs.isEmpty then { classes := ["ok"], value := some "n:0", valueByNumber := true }
+    if bs.isEmpty then exactCls "err"
     else if bs.length > 4096 then noPanic
     else if bs.all (· < 128) then
       match asInteger base with
@@ -423,18 +431,10 @@ def valueAgrees (p : Pred) (want got : String) : Bool :=
   else false
 
 /-- known defect classes (known_findings.json, status "known"): exactly these, nothing wider.
-    (tobits-unit-zero, tojson-negative-indent-wrap and protobuf-seek0-loop were found by this check
-    and have been fixed in /repo: they are violations again if they return.) -/
-def knownClass (fn : String) (vs : List JV) (obs : String) : Option String :=
-  let w := (words obs).headD ""
-  if fn == "_stdio_read/2" && (w == "panic:pkg/interp.(*Interp)._stdioRead" || w == "resource:mem") then
-    match vs with
-    | [_, _, l] =>
-      match castInt l with
-      | some n => if (stdioRead true n).noFault then none else some "stdio-read-length"
-      | none => none
-    | _ => none
-  else none
+    (tobits-unit-zero, tojson-negative-indent-wrap, protobuf-seek0-loop, line-bytes-unbounded and
+    stdio-read-length were found by this check and have been fixed in /repo: they are
+    violations again if they return.) -/
+def knownClass (_fn : String) (_vs : List JV) (_obs : String) : Option String := none
 
 def hasHugeString (toks : List String) : Bool := toks.any (·.startsWith "S:")
 
